@@ -236,6 +236,10 @@ def impl_monitors(impl_path):
     if p.returncode != 0:
         return [{'index': 0, 'op': '', 'monitor': 'V implmon-crashed ' + p.stderr.decode(errors='replace')[-200:], 'side': 'impl'}]
     for line in p.stdout.decode(errors='replace').split('\n'):
+        ms = re.match(r'Isum states=(\d+)', line)
+        if ms:
+            hits.append({'summary': True, 'states': int(ms.group(1))})
+            continue
         m = re.match(r'I (\d+) (\S+)(.*?) \| (.*)$', line)
         if m:
             hits.append({'index': int(m.group(1)), 'op': m.group(4), 'monitor': 'V ' + m.group(2), 'detail': m.group(3).strip()[:300], 'side': 'impl'})
@@ -352,6 +356,8 @@ def summarize(results):
         st = r['stats']
         for k in ('ops', 'accept', 'reject', 'halt'):
             tot[k] += st.get(k, 0)
+        tot['impl_states_monitored'] = tot.get('impl_states_monitored', 0) + sum(h.get('states', 0) for h in r.get('impl_hits', []) if h.get('summary'))
+        r['impl_hits'] = [h for h in r.get('impl_hits', []) if not h.get('summary')]
         model_hits = [dict(h, side='model') for h in st.get('monitor_hits', [])]
         seen = {(h['index'], h['monitor']) for h in model_hits}
         both = {(h['index'], h['monitor']) for h in r.get('impl_hits', [])} & seen
@@ -417,7 +423,7 @@ def summarize(results):
                 govdelay = any(re.match(r'> gov space=(session|subscription) key=StatusChangeDelay', l) for l in lines[:k])
                 reimp = any(l.startswith('> reimport') for l in lines[:k])
                 halts.append({'seed': r['seed'], 'profile': r['profile'], 'ops': r['ops'], 'index': n, 'op': lines[k - 1][2:] if k else '',
-                              'message': line[7:][:200], 'delay_change_before': govdelay, 'reimport_before': reimp})
+                              'message': line[7:][:900], 'delay_change_before': govdelay, 'reimport_before': reimp})
                 r['halts'] = True
     rt = {'exports': 0, 'reimports': 0, 'export_rejects': [], 'reimport_diffs': []}
     for r in results:
@@ -645,6 +651,9 @@ def check_property(prop, tier, seed):
         'correspondence': {'histories': corr['totals']['histories'], 'ops': corr['totals']['ops'], 'accept': corr['totals']['accept'],
                            'reject': corr['totals']['reject'], 'halt': corr['totals']['halt'], 'op_kinds': corr['totals']['op_kinds'],
                            'mismatches_total': len(corr['mismatches']), 'mismatches_in_projection': len(rel),
+                           'monitors_of_property': P.get('monitors', []),
+                           'implementation_states_loaded_and_monitored': corr['totals'].get('impl_states_monitored', 0),
+                           'monitor_hits_total': len(corr['monitor_hits']),
                            'projection': P.get('sections', 'all')},
         'partial': P.get('partial', ''),
         'notes': notes,
@@ -692,11 +701,11 @@ def run_determinism(tier, seed, th):
     if os.path.exists(summ):
         return json.load(open(summ))
     os.makedirs(cdir, exist_ok=True)
-    n = 3 if tier == 'quick' else 16
+    n = 4 if tier == 'quick' else 18
     blocks = 120 if tier == 'quick' else 400
     res = {'histories': 0, 'lines_compared': 0, 'apphashes_compared': 0, 'violations': [], 'procs': [1, 4, 16]}
     for i in range(n):
-        prof = ['lifecycle', 'money', 'gov', 'quota', 'extreme'][i % 5]
+        prof = ['sessions', 'lifecycle', 'money', 'gov', 'quota', 'extreme'][i % 6]
         outs = []
         ops = os.path.join(cdir, 'd%d.ops' % i)
         for procs in res['procs']:
